@@ -222,6 +222,12 @@ class MatchScenario(NetScenario):
                 out.append(("withdraw:%s" % r.name, 1))
         if done and "replay" not in st.faults_used:
             out.append(("replay:%s" % done[0].name, 1))
+        # a Reset for the message of a request that is over already (answered by a separate response, or withdrawn) while its
+        # exchange is still open: it closes the exchange and nothing else; what waits behind it goes out
+        for r in done:
+            if r.mtype == "CON" and r.mid is not None and not r.acked and r.first_tx is not None and "rstdone" not in st.faults_used:
+                out.append(("rstdone:%s" % r.name, 1))
+                break
         for s in ("S1", "S2"):
             if any(r.srv == s for r in live):
                 out.append(("icmp:" + s, 1))
@@ -282,6 +288,12 @@ class MatchScenario(NetScenario):
             else:
                 self.expect_same(st, before, label)
             self.expect_no_tx(st, nsent, label)
+        elif kind == "rstdone":
+            r = byname[parts[1]]
+            st.faults_used.add("rstdone")
+            w.inject(SRV[r.srv], CLI, rc.encode((rc.RST, 0, r.mid, b"", [], b"")))
+            r.acked = True
+            self.expect_same(st, before, label)
         elif kind == "withdraw":
             r = byname[parts[1]]
             st.faults_used.add("withdraw")
